@@ -21,7 +21,7 @@ Definition cbin_fits (dummy : Z) (b : cbin) : Prop :=
   Forall chunk_fits (cchunks b) /\ zlen (cchunks b) < 2 ^ 31 /\ key_sorted fst (cchunks b).
 
 Definition cref_fits (limit : Z) (r : cref) : Prop :=
-  Forall (cbin_fits (u32 (limit + 1))) (cbins r) /\ zlen (cbins r) + 1 <= limit /\ zlen (cbins r) + 1 < 2 ^ 31 /\
+  Forall (cbin_fits (u32 (limit + 1))) (cbins r) /\ zlen (cbins r) <= limit /\ limit + 1 < 2 ^ 32 /\ zlen (cbins r) + 1 < 2 ^ 31 /\
   key_sorted cnum (cbins r) /\ match cstats r with Some s => stats_fits s | None => True end.
 
 (** Version 1 or 2, a geometry the reader accepts, numbers that fit their
@@ -131,17 +131,17 @@ Lemma rd_cref_wr ver limit r rest :
   (ver = 1 \/ ver = 2) -> cref_fits limit r ->
   rd_cref ver limit (wr_cref ver (u32 (limit + 1)) r ++ rest) = Ok (cs_strip_ref ver r, rest).
 Proof.
-  intros Hver (Hb & Hlim & Hl & Hs & Hst). rewrite wr_cref_shape. unfold rd_cref. rewrite <- !app_assoc.
+  intros Hver (Hb & Hlim & Hl32 & Hl & Hs & Hst). rewrite wr_cref_shape. unfold rd_cref. rewrite <- !app_assoc.
   pose proof (zlen_nonneg (cbins r)) as Hn.
   set (n := zlen (cbins r) + match cstats r with Some _ => 1 | None => 0 end).
-  assert (Hn' : 0 <= n < 2 ^ 31 /\ n <= limit) by (unfold n; destruct (cstats r); lia).
+  assert (Hn' : 0 <= n < 2 ^ 31 /\ n <= limit + 1) by (unfold n; destruct (cstats r); lia).
   erewrite rd_bind_ok by (apply rd_i32_wr; lia).
   assert (Hd : 0 <= u32 (limit + 1) < 2 ^ 32) by (unfold u32, wrapu; apply Z.mod_pos_bound; lia).
   destruct (n =? 0) eqn:E.
   - apply Z.eqb_eq in E. assert (zlen (cbins r) = 0) by (unfold n in E; destruct (cstats r); lia).
     destruct r as [bins st]. simpl in *. destruct bins; [|unfold zlen in H; simpl in H; lia].
     destruct st; [unfold n, zlen in E; simpl in E; lia|]. reflexivity.
-  - rewrite u32_small' by lia. destruct (n >? limit) eqn:E2; [lia|].
+  - rewrite (u32_small' n) by lia. destruct (n >? u32 (limit + 1)) eqn:E2; [rewrite u32_small' in E2 by lia; lia|].
     erewrite rd_bind_ok by (apply rd_count_ok; lia).
     unfold cs_strip_ref. destruct (cstats r) as [s|] eqn:Est.
     + replace (Z.to_nat n) with (length (cbins r) + 1)%nat by (unfold n, zlen; lia).
@@ -240,11 +240,33 @@ Proof.
 Qed.
 
 (** ** answers *)
+Lemma bs_go_map {A} (key : A -> Z) (f : A -> A) (d : A) (l : list A) (b : Z) :
+  (forall x, key (f x) = key x) ->
+  forall fuel i j, ix_bs_go key (f d) (map f l) b fuel i j = ix_bs_go key d l b fuel i j.
+Proof.
+  intros Hk. induction fuel as [|fu IH]; intros i j; simpl; [reflexivity|].
+  destruct (i <? j); [|reflexivity]. rewrite map_nth, Hk.
+  destruct (key (nth (Z.to_nat (Z.shiftr (i + j) 1)) l d) >=? b); apply IH.
+Qed.
+
+Lemma cs_strip_default ver : cs_strip_bin ver (mkCBin 0 0 0 []) = mkCBin 0 0 0 [].
+Proof. unfold cs_strip_bin. cbn [cnum cleft crecords cchunks]. destruct (ver =? 2); reflexivity. Qed.
+
 Lemma cs_search_strip ver bs b :
   cs_search (map (cs_strip_bin ver) bs) b = option_map (cs_strip_bin ver) (cs_search bs b).
 Proof.
-  induction bs as [|x t IH]; cbn [map cs_search option_map]; [reflexivity|]. cbn [cs_strip_bin cnum].
-  destruct (cnum x >=? b); [destruct (cnum x =? b); reflexivity|exact IH].
+  unfold cs_search, ix_bsearch. unfold zlen. rewrite map_length.
+  set (d0 := mkCBin 0 0 0 []). set (n := length bs).
+  assert (E : ix_bs_go cnum d0 (map (cs_strip_bin ver) bs) b n 0 (Z.of_nat n) = ix_bs_go cnum d0 bs b n 0 (Z.of_nat n)).
+  { transitivity (ix_bs_go cnum (cs_strip_bin ver d0) (map (cs_strip_bin ver) bs) b n 0 (Z.of_nat n));
+      [unfold d0; rewrite cs_strip_default; reflexivity|apply bs_go_map; reflexivity]. }
+  rewrite E. set (c := ix_bs_go cnum d0 bs b n 0 (Z.of_nat n)).
+  destruct (c <? Z.of_nat n); [|reflexivity].
+  assert (En : nth (Z.to_nat c) (map (cs_strip_bin ver) bs) d0 = cs_strip_bin ver (nth (Z.to_nat c) bs d0)).
+  { transitivity (nth (Z.to_nat c) (map (cs_strip_bin ver) bs) (cs_strip_bin ver d0));
+      [unfold d0; rewrite cs_strip_default; reflexivity|apply map_nth]. }
+  rewrite En. cbn [cs_strip_bin cnum].
+  destruct (cnum (nth (Z.to_nat c) bs d0) =? b); reflexivity.
 Qed.
 
 Lemma cs_candidates_strip ver ref beg end_ ms dp :
@@ -262,7 +284,10 @@ Proof.
   unfold cs_chunks. rewrite Hs.
   assert (Hl : zlen (c_refs (cs_reread ix)) = zlen (c_refs ix)).
   { unfold cs_reread. cbn [c_refs]. unfold zlen in *. rewrite map_length. exact Hlen. }
-  rewrite Hl. destruct ((rid <? 0) || (rid >=? zlen (c_refs ix))); [reflexivity|]. cbn [fst].
+  rewrite Hl. destruct ((rid <? 0) || (rid >=? zlen (c_refs ix))); [reflexivity|].
+  assert (Hm : cs_max (cs_reread ix) = cs_max ix).
+  { unfold cs_max, cs_reread. cbn [c_ms c_dp]. rewrite Hms, Hdp. reflexivity. }
+  rewrite Hm. destruct ((beg <? 0) || (end_ <=? beg) || (beg >=? cs_max ix)); [reflexivity|]. cbn [fst].
   unfold cs_reread. cbn [c_refs c_ms c_dp].
   change cs_empty_ref with (cs_strip_ref (c_ver (cs_sort ix)) cs_empty_ref) at 1. rewrite map_nth.
   rewrite cs_candidates_strip. reflexivity.
@@ -286,7 +311,7 @@ Definition cbin_ranges (dummy : Z) (b : cbin) : Prop :=
   0 <= cnum b < 2 ^ 32 /\ cnum b <> dummy /\ u64_fits (cleft b) /\ u64_fits (crecords b) /\
   Forall chunk_fits (cchunks b) /\ zlen (cchunks b) < 2 ^ 31.
 Definition cref_ranges (limit : Z) (r : cref) : Prop :=
-  Forall (cbin_ranges (u32 (limit + 1))) (cbins r) /\ zlen (cbins r) + 1 <= limit /\ zlen (cbins r) + 1 < 2 ^ 31 /\
+  Forall (cbin_ranges (u32 (limit + 1))) (cbins r) /\ zlen (cbins r) <= limit /\ limit + 1 < 2 ^ 32 /\ zlen (cbins r) + 1 < 2 ^ 31 /\
   match cstats r with Some s => stats_fits s | None => True end.
 Definition csi_ranges (ix : cindex) : Prop :=
   (c_ver ix = 1 \/ c_ver ix = 2) /\
@@ -300,8 +325,8 @@ Proof.
   intros Hs (Hv & Hms & Hdp & Hg & Ha & Hr & Hl & Hu). unfold cs_sort. rewrite Hs. unfold csi_fits. cbn [c_ver c_ms c_dp c_aux c_refs c_unm].
   repeat (split; [assumption|]). split; [|split; [unfold zlen in *; rewrite map_length; exact Hl|exact Hu]].
   apply Forall_forall. intros r' Hr'. apply in_map_iff in Hr'. destruct Hr' as (r & <- & Hin).
-  rewrite Forall_forall in Hr. destruct (Hr r Hin) as (A & B & C & D).
-  unfold cref_fits, cs_sort_ref. cbn [cbins cstats]. split; [|split; [|split; [|split]]].
+  rewrite Forall_forall in Hr. destruct (Hr r Hin) as (A & B & B32 & C & D).
+  unfold cref_fits, cs_sort_ref. cbn [cbins cstats]. split; [|split; [|split; [exact B32|split; [|split]]]].
   - apply Forall_isort. apply Forall_forall. intros b' Hb'. apply in_map_iff in Hb'. destruct Hb' as (b & <- & Hb).
     rewrite Forall_forall in A. destruct (A b Hb) as (A1 & A2 & A3 & A4 & A5 & A6).
     unfold cbin_fits, cs_sort_bin. cbn [cnum cleft crecords cchunks]. repeat (split; [assumption|]).
